@@ -54,11 +54,13 @@ def strdict(sub, max_size=5, hostile=False):
 
 
 def values(depth=3, width=4, hostile=False):
+    # engines that stop at inferred types (LABEL_KEYS on) also get instances of two distinct classes that print alike
+    atoms_ = st.one_of(atoms, atoms, st.sampled_from([["special", "twinA"], ["special", "twinB"], ["list", [["special", "twinA"]]], ["list", [["special", "twinB"]]]])) if LABEL_KEYS[0] else atoms
     if depth <= 0:
-        return atoms
+        return atoms_
     sub = values(depth - 1, width, hostile)
     return st.one_of(
-        atoms,
+        atoms_,
         st.lists(sub, max_size=width).map(lambda l: ["list", l]),
         st.lists(sub, max_size=3).map(lambda l: ["tuple", l]),
         st.lists(hashable(1), max_size=width).map(lambda l: ["set", l]),
@@ -160,6 +162,10 @@ def build(spec):
             return fxh.NT(1, "x")
         if s == "bytes":
             return b"x"
+        if s == "twinA":
+            return fxh.TwinA()
+        if s == "twinB":
+            return fxh.TwinB()
     if k == "list":
         return [build(e) for e in spec[1]]
     if k == "tuple":
